@@ -504,6 +504,11 @@ def obligations(tier):
         obs.append(system_ob(kind, 2, 2, {"dyn_loss": "default", "initial_condition": "default", "observations": "default",
                                           "boundary_loss": "default"}, ("v",) if kind != "statio" else (), ("u",)))
         obs.append(system_ob(kind, 2, 1, {}, (), (), k=2))
+        if kind != "statio":
+            # a batch without observations: initial conditions given for some unknowns only / for all of them
+            obs.append(system_ob(kind, 2, 2, {}, ("v",), ()))
+            obs.append(system_ob(kind, 2, 2, {"initial_condition": "dict"}, ("u",), ()))
+            obs.append(system_ob(kind, 2, 2, {}, allu(2), ()))
     obs.append(one_one_equals_plain("ODE"))
     obs.append(one_one_equals_plain("nonstatio"))
     return obs
